@@ -362,3 +362,26 @@ impl TryFrom<&Link> for Rc<str> {
         Err(error!(SyntaxError; "EXPECTED STRING LITERAL"))
     }
 }
+
+#[cfg(feature = "verif")]
+impl Link {
+    pub fn verif_dump(&self) -> String {
+        let mut unlinked: Vec<String> = self
+            .unlinked
+            .iter()
+            .map(|(k, v)| format!("{}={:?}", k, v))
+            .collect();
+        unlinked.sort();
+        format!(
+            "{}{:?}{:?}{}{}{:?}{:?}{:?}",
+            self.current_symbol,
+            self.ops,
+            self.data,
+            self.data_pos,
+            self.direct_set,
+            self.symbols,
+            unlinked,
+            self.whiles
+        )
+    }
+}
